@@ -166,6 +166,8 @@ DDL = [
     ("drop table {q}{n}", "{N} successfully dropped.", True, "TABLE"),
     ("DROP TABLE IF EXISTS {q}{n}", "{N} successfully dropped.", True, "TABLE"),
     ("drop view {q}{n}", "{N} successfully dropped.", True, "VIEW"),
+    ("create table {q}{n} (a int, b varchar(10)) comment = 'with a comment'", "Table {N} successfully created.", False, "TABLE"),
+    ("create or replace table {q}{n} (a int) COMMENT = 'again'", "Table {N} successfully created.", True, "TABLE"),
     ("alter table {q}{n} add column c int", "Statement executed successfully.", True, "TABLE"),
     ("alter table {q}{n} rename to {q}zz", "Statement executed successfully.", True, "TABLE"),
 ]
@@ -174,7 +176,7 @@ DDL = [
 @ob(
     "C04.ddl_status_names_object",
     encodes=["fakesnow.cursor.FakeSnowflakeCursor.execute/_execute (status message synthesis)", "fakesnow.transforms.upper_case_unquoted_identifiers"],
-    bounds="10 table/view DDL forms x 8 object spellings (lower/mixed/upper, quoted mixed, quoted with space, with _ and digit, through IDENTIFIER('...') in two cases) x 5 "
+    bounds="12 table/view DDL forms (incl. CREATE TABLE with a COMMENT) x 8 object spellings (lower/mixed/upper, quoted mixed, quoted with space, with _ and digit, through IDENTIFIER('...') in two cases) x 5 "
     "qualification spellings (none, schema, database.schema lower/upper/quoted)",
     timeout=(300, 600),
     stubs=["K2 vf.duckstub.Engine"],
